@@ -204,12 +204,13 @@ P('C07', claimed=True, level='other',
   unreached=['RT stamping for all schedules (sampled under injected jitter)'])
 
 P('C08', claimed=True, level='other',
-  contracts=['base_clock_loops', 'base_clock_stop'], drivers=['vf.drivers.C08'],
+  contracts=['base_clock_loops', 'base_clock_stop', 'base_appsched'], drivers=['vf.drivers.C08'],
   level_text=('Monitor obligations on the sequential code under the lock are proved (notification iff '
               'the head of the queue changes; exceptions of a task never escape the loop and leave the '
               'awake flag cleared; numeric return re-schedules relative to the scheduled time; stop: queue '
               'cleared, run flag down and the clock thread notified in one critical section, joined outside it; '
-              'clear: popped under the lock until empty, thread notified). Exactly-'
+              'clear: popped under the lock until empty, thread notified; the scheduler behind AppClock: wake-up protocol, '
+              're-scheduling from the physical present, due entries taken first and then woken at their own times). Exactly-'
               'once, never-early, order, cancellation and error isolation are checked by ghost monitors '
               'on the real clock threads (bounded stress); timeliness gates only on the discriminating '
               'scenario (a task becoming earliest while the thread sleeps).'),
